@@ -6,11 +6,14 @@
       parity-free templates -- nested binds allowed --, Observe, Unobserve, SetVar, UpdateVar,
       AddInput, RemoveInput, [Stabilize []], StabilizeCancelled) or [ParStabilize []],
       well-formed and clean, returning [Ok (_, None)]; or
-    - a pass of EITHER stabilizer, [Stabilize p] / [ParStabilize p], whose plan [p] consists of
-      var writes ([ASet] / [AUpdate] by node, bind or cutoff functions) and at most ONE fault
-      [(x, w, AFail k)]: [w] the function or the cutoff function of [x], [k] an error or a panic
-      ([isOneFaultPlan]); well-formed ([plan_ok]) and clean (for ParStabilize: no fault of a bind
-      function, [par_plan_clean]); returning [Ok (_, e)] with [e] not a rejected edge.
+    - a serial pass [Stabilize p] with ANY well-formed plan [p] ([plan_ok]): var writes
+      ([ASet] / [AUpdate] by node, bind or cutoff functions) and any number of faults
+      [(x, w, AFail k)], [w] the function (of a Map-like node or of a bind) or the cutoff
+      function of [x], [k] an error or a panic (C07_binds_multi_fault); or a parallel pass
+      [ParStabilize p] whose plan has writes and at most ONE fault ([isOneFaultPlan]; the parallel
+      stabilizer keeps the first error of a block, so with two the result depends on the order)
+      and is clean (no fault of a bind function, [par_plan_clean]); returning [Ok (_, e)] with
+      [e] not a rejected edge.
     [C01_history_binds_everything]: after EVERY plan-free pass of either stabilizer in such a
     history every registered node is locally consistent and every observer reads the from-scratch
     value [Spec.eval]; [C01_history_binds_everything_invariants]: [Inv], [ValInvB], [Tplain],
@@ -21,7 +24,7 @@
 From incr Require Import Base Heap HeapSpec HeapProofs EngineDefs Engine EngineRun EngineWf Spec EngineLemmas EngineLocal
      EngineInv EngineInvProofs PassInv PassProofs PassPlanProofs PassBind PassBindProofs PassBindSwap PassBindSwapProofs
      PassBindSwapStep PassBindOps PassBindFault PassBindWrites PassBindTotal PassBindMixed PassBindFaultGen
-     ParBind ParBindStep ParBindHistory ParBindWrites ParBindFault ParBindEverything SpecProofs.
+     ParBind ParBindStep ParBindHistory ParBindWrites ParBindFault PassBindMultiFault ParBindEverything SpecProofs.
 
 Theorem C01_history_binds_everything : forall mh os1 o os2 sf,
   (0 < mh)%nat -> histE_run (init mh) (os1 ++ o :: os2) = Some sf ->
